@@ -92,6 +92,21 @@ def cases(tier, seed):
 
 def extra_cases(tier, seed):
     from mcx.props import c06
+    f = 30.0            # fixed, seed-independent geometry: one of these orders is a listed known finding
+    lam = geom.C_MININEC / f
+    # arcs closed on themselves, alone, with a tail from the closing point, and two half circles closing each other
+    for n in (3, 4, 5, 8):
+        R = 0.05 * lam
+        loop = dict(kind='arc', n=n, radius=R, ang1=0., ang2=360., r=1e-4 * lam)
+        yield dict(extra='closed-arc-n%d' % n, env='free', f=f, wires=[loop])
+        tail = geom.wire([R, 0., 0.], [R + 0.04 * lam, 0.03 * lam, 0.01 * lam], 2, 1e-4 * lam)
+        yield dict(extra='closed-arc-tail-n%d' % n, env='free', f=f, wires=[loop, tail])
+        yield dict(extra='tail-closed-arc-n%d' % n, env='free', f=f, wires=[tail, loop])
+        h1 = dict(kind='arc', n=n, radius=R, ang1=0., ang2=180., r=1e-4 * lam)
+        h2 = dict(kind='arc', n=n, radius=R, ang1=180., ang2=360., r=1e-4 * lam)
+        h2r = dict(kind='arc', n=n, radius=R, ang1=360., ang2=180., r=1e-4 * lam)
+        yield dict(extra='two-half-arcs-n%d' % n, env='free', f=f, wires=[h1, h2])
+        yield dict(extra='two-half-arcs-rev-n%d' % n, env='free', f=f, wires=[h1, h2r])
     for c in c06.extras(tier, seed):
         for i, ws in enumerate(c['descs']):
             yield dict(extra='%s#%d' % (c['extra'], i), env=c['env'], f=c['f'], wires=ws)
